@@ -172,6 +172,10 @@ func (e *ScriptedEngine) answer(site string) (bool, error) {
 		return false, nil
 	case 2:
 		return false, ErrEngine
+	case 3: // the engine's own request timed out: its error wraps a context error although the caller's context is alive
+		return false, fmt.Errorf("engine request: %w", context.DeadlineExceeded)
+	case 4:
+		return false, fmt.Errorf("engine request aborted: %w", context.Canceled)
 	}
 	return true, nil
 }
